@@ -419,7 +419,10 @@ fn skeleton(o: &InMemDicomObject, with_values: bool) -> String {
                 else if with_values {
                     // binary values of odd length come back padded with one zero byte
                     let p = match p { PrimitiveValue::U8(b) if b.len() % 2 == 1 => { let mut b = b.to_vec(); b.push(0); PrimitiveValue::U8(b.into()) } _ => p.clone() };
-                    format!("P:{}", p.to_str().trim_end_matches(|c: char| c == ' ' || c == '\0'))
+                    // padding and white space around the components of a value are not significant
+                    let t = p.to_str();
+                    let comps: Vec<&str> = t.split('\\').map(|c| c.trim_matches(|c: char| c == ' ' || c == '\0')).collect();
+                    format!("P:{}", comps.join("\\"))
                 } else { "P".into() }
             }
             Value::Sequence(s) => format!("S[{}]", s.items().iter().map(|i| skeleton(i, with_values)).collect::<Vec<_>>().join("|")),
@@ -496,7 +499,7 @@ fn history_case(r: &mut Rng, init: InMemDicomObject, nops: usize, bucket: &str, 
     let mut descs = vec![];
     let mut fail: Option<(String, String)> = None;
     // a failure of a known class does not end the scrutiny of the history: a later failure of another class replaces it
-    const KNOWN: &[&str] = &["NestedFailureLeavesPath", "PrimitiveUnderSqVr", "SequenceUnderNonSqTag"];
+    const KNOWN: &[&str] = &["PrimitiveUnderSqVr", "SequenceUnderNonSqTag"];
     let is_open = |f: &Option<(String, String)>| match f { None => true, Some((c, _)) => KNOWN.contains(&c.as_str()) };
     let mut fixed = fixed_ops.map(|v| v.into_iter());
     let mut all_shape_ok = shape_ok(&c0);
@@ -600,7 +603,7 @@ pub fn cases(ctx: &Ctx) -> Vec<Case> {
             mk_op(&[], pn, AttributeAction::SetVr(VR::LO), RAct::SetVr(vr_code(VR::LO)), &format!("(ASetVr {})", vr_code(VR::LO))),
         ];
         out.push(history_case(&mut r, o, 4, "corpus-setvr", Some(ops)));
-        // known: failing constructive nested operation leaves the created path behind
+        // (fixed 857a4f4) a failing constructive nested operation used to leave the created path behind
         let ops = vec![
             mk_op(&[(Tag(0x0008, 0x1140), 0), (pn, 0)], Tag(0x0010, 0x0020), AttributeAction::SetStr("x".into()), RAct::Set(CPrim::Str("x".into())), "(ASet (PStr [120]))"),
         ];
